@@ -65,6 +65,8 @@ static void dump_dec(const char *pfx, htp_decoder_cfg_t *d) {
     (void) pfx;
 }
 
+#include "consts_all.h"
+
 int main(void) {
     printf("(* GENERATED from /repo's working tree by harness/dump_consts.c -- do not edit. *)\n");
     printf("From Coq Require Import List NArith ZArith Bool.\nImport ListNotations.\n\n");
@@ -168,5 +170,6 @@ int main(void) {
         printf("Definition c_default_time_limit : Z := (%lld)%%Z.\n", (long long) cfg->compression_time_limit);
         htp_config_destroy(cfg);
     }
+    consts_all();
     return 0;
 }
